@@ -5,6 +5,7 @@ ASSUME = [
     "Parseval part: one bunch (the relation is per profile; a train couples bunches through the wake), in a third of the cases sitting in bucket 1-3 instead of 0; the wake is requested before the spectrum in half of the cases",
     "train part: 2-5 bunches in a radiation field as main() builds it (no spacing): spectrum_b = dq^2*cutoff*Re Z*|F_b|^2 with the oracle's own DFT of bunch b alone (2e-5 of the maximum), power_b = delta_f * sum of that spectrum",
     "|P/(df*dq^2) - 1/2 sum rho*W_raw| <= 1/2|Re Z0||F0|^2 + |Re Z_top||F_top|^2 + (1e-5 + N*2^-24/4)*(sum Re Z|F|^2 + max|W|*sum|rho|) (single-precision FFT and float accumulation over N terms), the two exempted terms computed by the oracle's own DFT; two thirds of the cases have Z0 = Z_top = 0 so that the relation must hold without exemption",
+    "program part: one bunch, CSR-only impedance (parallel plates or free space: wake and radiation impedance are then the same table), cutoff disabled, paddings with and without rounding; every record - half of the runs are interrupted by a real SIGINT through the guarded hook, so also the final record of an aborted run - must satisfy Intensity/(df*dq^2) = 1/2 sum profile*wake/scale within 5e-5 of (lhs + rhs + sum|Re Z||F|^2) plus the exempt terms",
     "passive impedances: the four models of the repository, random ones with Re Z >= 0, and what makeImpedance() returns for CSR (shielded or not) + optional resistive wall (xi >= 0) + collimator openings from 0.05 to 2.5 times the gap",
     "cutoff history on one object: cutoff first then disabled (Parseval must hold as if never filtered); afterwards a 2-30 times higher cutoff must not give more power than the first, and disabling it again must reproduce the unfiltered power bit for bit",
 ]
@@ -21,3 +22,5 @@ def run(ctx):
     core.run_harness(ctx, "c06", 600 if th else 64, variant="asan", args=["--mode", "c07mb"], xdg=xdg)
     ctx.min_events = {"bunch_spectra_checked": 1500, "wake_requested_before_spectrum": 300, "fields_checked": 1000, "cutoff_cases": 50, "model.freespace": 30,
                       "model.parallelplates": 30, "model.resistivewall": 30, "model.collimator": 30, "model.factory": 30, "cutoff_requested_before_disabled": 20}
+    from checks import c07_prog
+    c07_prog.run(ctx)
